@@ -359,62 +359,315 @@ Qed.
 Lemma or_first_nonnil flag n i : or_first flag (append_varint n i) <> [].
 Proof. unfold append_varint. destruct (i <? 2 ^ n - 1); discriminate. Qed.
 
+Lemma enc_literal_tables e fn fv fs e' (body body' : bytes) t indexing :
+  tab_ok t -> tab_ok (edt e) -> ents (edt e) = ents t -> dmax (edt e) = dmax t ->
+  (fs = true -> indexing = false) ->
+  (if indexing
+   then match dt_add (edt e) (mkF fn fv fs) with
+        | Some d => Some (mkE d (eminsize e) (elimit e) (epending e), body')
+        | None => None
+        end
+   else Some (e, body')) = Some (e', body) ->
+  exists t', (if indexing then dt_add t (mkF fn fv false) else Some t) = Some t' /\
+      tab_eq (edt e') t' /\ tab_ok t' /\ tab_ok (edt e') /\ dallowed t' = dallowed t /\ dmax t' = dmax t
+      /\ eminsize e' = eminsize e /\ elimit e' = elimit e /\ epending e' = epending e /\ body = body'.
+Proof.
+  intros Hokt Hoke Hents Hmax Hsi He. destruct indexing.
+  - assert (fs = false \/ fs = true) as [-> | ->] by (destruct fs; auto).
+    + rewrite (dt_add_ok _ _ Hoke) in He. rewrite (dt_add_ok _ _ Hokt).
+      inversion He; subst e' body. eexists. split; [reflexivity|].
+      unfold tab_eq. cbn [edt eminsize elimit epending ents dmax dallowed].
+      split; [split; [rewrite Hents, Hmax; reflexivity|exact Hmax]|].
+      split; [apply tab_ok_add; exact Hokt|].
+      split; [apply tab_ok_add; exact Hoke|].
+      repeat split; reflexivity.
+    + specialize (Hsi eq_refl). discriminate Hsi.
+  - inversion He; subst e' body. exists t. split; [reflexivity|]. split; [split; assumption|].
+    split; [exact Hokt|]. split; [exact Hoke|]. repeat split; reflexivity.
+Qed.
+
+Lemma lit_triple_of indexing fs : (fs = true -> indexing = false) ->
+  lit_triple (type_byte indexing fs) (if indexing then 6 else 4) (if fs then 2 else if indexing then 0 else 1)
+  /\ ((if fs then 2 else if indexing then 0 else 1) =? 2) = fs
+  /\ ((if fs then 2 else if indexing then 0 else 1) =? 0) = indexing.
+Proof.
+  intros Hsi. unfold lit_triple. destruct fs; [rewrite (Hsi eq_refl)|destruct indexing]; cbn; auto 10.
+Qed.
+
+Lemma idx_bound t idx : tab_ok t -> dmax t <= 2 ^ 32 -> 0 <= idx <= 61 + Z.of_nat (length (ents t)) -> 0 <= idx < 2 ^ 62.
+Proof.
+  intros Hokt Hbig Hidx. pose proof (length_le_tsum (ents t)). destruct Hokt as [_ [_ Hle]].
+  assert (2 ^ 32 < 2 ^ 61) by (apply Z.pow_lt_mono_r; lia).
+  assert (2 ^ 61 < 2 ^ 62) by (apply Z.pow_lt_mono_r; lia). lia.
+Qed.
+
+Definition fr_post (e e' : enc) (t t' : dyntab) : Prop :=
+  tab_eq (edt e') t' /\ tab_ok t' /\ tab_ok (edt e') /\ dallowed t' = dallowed t /\ dmax t' = dmax t
+  /\ eminsize e' = eminsize e /\ elimit e' = elimit e /\ epending e' = epending e.
+
+Lemma field_roundtrip_literal e fn fv fs e' body t idx :
+  wf_bytes fn = true -> wf_bytes fv = true -> blen fn < 2 ^ 61 -> blen fv < 2 ^ 61 ->
+  tab_ok t -> tab_ok (edt e) -> ents (edt e) = ents t -> dmax (edt e) = dmax t ->
+  0 <= idx < 2 ^ 62 -> (idx <> 0 -> exists v, dec_at t idx = Some (fn, v)) ->
+  (let indexing := negb fs && (fsize (mkF fn fv fs) <=? dmax (edt e)) in
+   let body := if idx =? 0 then append_new_name (mkF fn fv fs) indexing else append_indexed_name (mkF fn fv fs) idx indexing in
+   if indexing
+   then match dt_add (edt e) (mkF fn fv fs) with
+        | Some d => Some (mkE d (eminsize e) (elimit e) (epending e), body)
+        | None => None
+        end
+   else Some (e, body)) = Some (e', body) ->
+  body <> [] /\ exists t', (forall rest, parse_repr hd t (body ++ rest) = ROk (t', Some (mkF fn fv fs)) rest) /\ fr_post e e' t t'.
+Proof.
+  intros Hwn Hwv Hln Hlv Hokt Hoke Hents Hmax Hidx2 Hnm He. cbv zeta in He.
+  remember (negb fs && (fsize (mkF fn fv fs) <=? dmax (edt e))) as indexing eqn:Hidef.
+  assert (fs = true -> indexing = false) as Hsi by (intros ->; subst indexing; reflexivity).
+  clear Hidef.
+  destruct (lit_triple_of indexing fs Hsi) as [Htr [Hit2 Hit0]].
+  destruct (enc_literal_tables e fn fv fs e' body _ t indexing Hokt Hoke Hents Hmax Hsi He)
+    as [t' [Ht' [Hteq [Hokt' [Hoke' [Hal [Hmx [Hmin [Hlim [Hpen Hbody]]]]]]]]]].
+  assert (lit_result t (if fs then 2 else if indexing then 0 else 1) fn fv = fun rest => ROk (t', Some (mkF fn fv fs)) rest) as Hres.
+  { unfold lit_result. rewrite Hit2, Hit0. destruct indexing; [rewrite Ht'; reflexivity|inversion Ht'; reflexivity]. }
+  assert (fr_post e e' t t') as Hpost by (exact (conj Hteq (conj Hokt' (conj Hoke' (conj Hal (conj Hmx (conj Hmin (conj Hlim Hpen)))))))).
+  rewrite Hbody. destruct (idx =? 0) eqn:E0.
+  - unfold append_new_name. cbn [fname fvalue fsens]. split; [discriminate|]. exists t'.
+    split; [|exact Hpost].
+    intros rest. rewrite (parse_new_name t _ _ _ fn fv rest Htr Hwn Hwv Hln Hlv), Hres. reflexivity.
+  - unfold append_indexed_name. cbn [fname fvalue fsens].
+    destruct (Hnm ltac:(lia)) as [x Hat].
+    split; [intros Hnil; apply app_eq_nil in Hnil; destruct Hnil as [Hnil _]; revert Hnil; apply or_first_nonnil|].
+    exists t'. split; [|exact Hpost].
+    intros rest. rewrite (parse_idx_name t _ _ _ idx fn x fv rest Htr ltac:(lia) Hat Hwv Hlv), Hres. reflexivity.
+Qed.
+
+Lemma field_roundtrip_literal' e f e' body t idx :
+  wf_f f -> tab_ok t -> tab_ok (edt e) -> ents (edt e) = ents t -> dmax (edt e) = dmax t ->
+  0 <= idx < 2 ^ 62 -> (idx <> 0 -> exists v, dec_at t idx = Some (fname f, v)) ->
+  (let indexing := negb (fsens f) && (fsize f <=? dmax (edt e)) in
+   let body := if idx =? 0 then append_new_name f indexing else append_indexed_name f idx indexing in
+   if indexing
+   then match dt_add (edt e) f with
+        | Some d => Some (mkE d (eminsize e) (elimit e) (epending e), body)
+        | None => None
+        end
+   else Some (e, body)) = Some (e', body) ->
+  body <> [] /\ exists t', (forall rest, parse_repr hd t (body ++ rest) = ROk (t', Some f) rest) /\ fr_post e e' t t'.
+Proof.
+  intros [Hwn [Hwv [Hln Hlv]]]. destruct f as [fn fv fs]. cbn [fname fvalue fsens] in *.
+  intros. eapply field_roundtrip_literal; eassumption.
+Qed.
+
+Lemma field_roundtrip_core e f e' body t idx nvm :
+  wf_f f -> tab_ok t -> tab_ok (edt e) -> ents (edt e) = ents t -> dmax (edt e) = dmax t -> dmax t <= 2 ^ 32 ->
+  search_table t f = (idx, nvm) ->
+  (if nvm then Some (e, append_indexed idx)
+   else
+    let indexing := negb (fsens f) && (fsize f <=? dmax (edt e)) in
+    let body := if idx =? 0 then append_new_name f indexing else append_indexed_name f idx indexing in
+    if indexing then
+      match dt_add (edt e) f with
+      | Some d => Some (mkE d (eminsize e) (elimit e) (epending e), body)
+      | None => None
+      end
+    else Some (e, body)) = Some (e', body) ->
+  body <> [] /\ exists t', (forall rest, parse_repr hd t (body ++ rest) = ROk (t', Some f) rest) /\ fr_post e e' t t'.
+Proof.
+  intros Hwf Hokt Hoke Hents Hmax Hbig Est He.
+  destruct (search_table_spec _ _ _ _ Est) as [Hidx [Hm Hnm]].
+  pose proof (idx_bound t idx Hokt Hbig Hidx) as Hidx2.
+  destruct nvm.
+  - inversion He; subst e' body. destruct (Hm eq_refl) as [Hs Hat].
+    assert (f = mkF (fname f) (fvalue f) false) as Hf by (destruct f; cbn in Hs; subst; reflexivity).
+    split; [apply or_first_nonnil|]. exists t.
+    split; [intros rest; rewrite Hf at 1; apply parse_indexed_ok; assumption|].
+    unfold fr_post. split; [split; assumption|split; [exact Hokt|split; [exact Hoke|repeat split; reflexivity]]].
+  - apply (field_roundtrip_literal' e f e' body t idx); try assumption.
+    apply Hnm. reflexivity.
+Qed.
+
+Lemma enc_field_unfold e f t : ents (edt e) = ents t ->
+  enc_field e f =
+  (if snd (search_table t f) then Some (e, append_indexed (fst (search_table t f)))
+   else
+    let indexing := negb (fsens f) && (fsize f <=? dmax (edt e)) in
+    let body := if fst (search_table t f) =? 0 then append_new_name f indexing
+                else append_indexed_name f (fst (search_table t f)) indexing in
+    if indexing then
+      match dt_add (edt e) f with
+      | Some d => Some (mkE d (eminsize e) (elimit e) (epending e), body)
+      | None => None
+      end
+    else Some (e, body)).
+Proof.
+  intros Hents. unfold enc_field. rewrite (search_table_ents _ t f Hents).
+  generalize (search_table t f). intros [i m]. reflexivity.
+Qed.
+
 Lemma field_roundtrip e f e' body t :
   wf_f f -> tab_ok t -> tab_ok (edt e) -> tab_eq (edt e) t -> dmax t <= 2 ^ 32 ->
   enc_field e f = Some (e', body) ->
-  body <> [] /\ exists t',
-    (forall rest, parse_repr hd t (body ++ rest) = ROk (t', Some f) rest)
-    /\ tab_eq (edt e') t' /\ tab_ok t' /\ tab_ok (edt e') /\ dallowed t' = dallowed t /\ dmax t' = dmax t
-    /\ eminsize e' = eminsize e /\ elimit e' = elimit e /\ epending e' = epending e.
+  body <> [] /\ exists t', (forall rest, parse_repr hd t (body ++ rest) = ROk (t', Some f) rest) /\ fr_post e e' t t'.
 Proof.
-  intros [Hwn [Hwv [Hln Hlv]]] Hokt Hoke [Hents Hmax] Hbig He.
-  unfold enc_field in He. rewrite (search_table_ents _ t f Hents) in He.
-  destruct (search_table t f) as [idx nvm] eqn:Est.
-  destruct (search_table_spec _ _ _ _ Est) as [Hidx [Hm Hnm]].
-  assert (0 <= idx < 2 ^ 62) as Hidx2.
-  { pose proof (length_le_tsum (ents t)). destruct Hokt as [_ [_ Hle]].
-    assert (2 ^ 32 < 2 ^ 61) by (apply Z.pow_lt_mono_r; lia).
-    assert (2 ^ 61 < 2 ^ 62) by (apply Z.pow_lt_mono_r; lia). lia. }
-  destruct f as [fn fv fs]. cbn [fname fvalue fsens] in *.
-  destruct nvm.
-  - (* indexed *)
-    inversion He; subst e' body. destruct (Hm eq_refl) as [Hs Hat]. subst fs.
-    split; [apply or_first_nonnil|]. exists t.
-    split; [intros rest; apply parse_indexed_ok; assumption|].
-    split; [split; assumption|split; [exact Hokt|split; [exact Hoke|repeat split; reflexivity]]].
-  - (* literal *)
-    remember (negb fs && (fsize (mkF fn fv fs) <=? dmax (edt e))) as indexing eqn:Hidef.
-    assert (fs = true -> indexing = false) as Hsi by (intros ->; subst indexing; reflexivity).
-    assert (lit_triple (type_byte indexing fs) (if indexing then 6 else 4) (if fs then 2 else if indexing then 0 else 1)
-            /\ (if fs then 2 else if indexing then 0 else 1) =? 2 = fs
-            /\ ((if fs then 2 else if indexing then 0 else 1) =? 0) = indexing) as [Htr [Hit2 Hit0]].
-    { unfold lit_triple. destruct fs; [rewrite (Hsi eq_refl)|destruct indexing]; cbn; auto 10. }
-    assert (exists t', (if indexing then dt_add t (mkF fn fv false) else Some t) = Some t' /\
-              tab_eq (edt e') t' /\ tab_ok t' /\ tab_ok (edt e') /\ dallowed t' = dallowed t /\ dmax t' = dmax t
-              /\ eminsize e' = eminsize e /\ elimit e' = elimit e /\ epending e' = epending e
-              /\ body = (if idx =? 0 then append_new_name (mkF fn fv fs) indexing
-                         else append_indexed_name (mkF fn fv fs) idx indexing)) as [t' [Ht' [Hteq [Hokt' [Hoke' [Hal [Hmx [Hmin [Hlim [Hpen Hbody]]]]]]]]]].
-    { clear Hidef Htr Hit2 Hit0. destruct indexing.
-      - assert (fs = false \/ fs = true) as [-> | ->] by (destruct fs; auto).
-        + rewrite (dt_add_ok _ _ Hoke) in He. rewrite (dt_add_ok _ _ Hokt).
-          inversion He; subst e' body. eexists. split; [reflexivity|].
-          unfold tab_eq. cbn [edt eminsize elimit epending ents dmax dallowed]. rewrite Hents, Hmax.
-          split; [split; reflexivity|]. split; [apply tab_ok_add; exact Hokt|].
-          split; [rewrite <- Hmax; pattern (ents t) at 1 2; rewrite <- Hents; apply tab_ok_add; exact Hoke|].
-          repeat split; reflexivity.
-        + specialize (Hsi eq_refl). discriminate Hsi.
-      - inversion He; subst e' body. exists t. split; [reflexivity|]. split; [split; assumption|].
-        split; [exact Hokt|]. split; [exact Hoke|]. repeat split; reflexivity. }
-    assert (lit_result t (if fs then 2 else if indexing then 0 else 1) fn fv = fun rest => ROk (t', Some (mkF fn fv fs)) rest) as Hres.
-    { unfold lit_result. rewrite Hit2, Hit0. destruct indexing; [rewrite Ht'; reflexivity|inversion Ht'; reflexivity]. }
-    subst body. destruct (idx =? 0) eqn:E0.
-    + unfold append_new_name. cbn [fname fvalue fsens]. split; [discriminate|]. exists t'.
-      split; [|exact (conj Hteq (conj Hokt' (conj Hoke' (conj Hal (conj Hmx (conj Hmin (conj Hlim Hpen)))))))].
-      intros rest. rewrite (parse_new_name t _ _ _ fn fv rest Htr Hwn Hwv Hln Hlv), Hres. reflexivity.
-    + unfold append_indexed_name. cbn [fname fvalue fsens].
-      destruct (Hnm eq_refl ltac:(lia)) as [x Hat].
-      split; [intros Hnil; apply app_eq_nil in Hnil; destruct Hnil as [Hnil _]; revert Hnil; apply or_first_nonnil|].
-      exists t'. split; [|exact (conj Hteq (conj Hokt' (conj Hoke' (conj Hal (conj Hmx (conj Hmin (conj Hlim Hpen)))))))].
-      intros rest. rewrite (parse_idx_name t _ _ _ idx fn x fv rest Htr ltac:(lia) Hat Hwv Hlv), Hres. reflexivity.
+  intros Hwf Hokt Hoke [Hents Hmax] Hbig He.
+  rewrite (enc_field_unfold e f t Hents) in He.
+  apply (field_roundtrip_core e f e' body t (fst (search_table t f)) (snd (search_table t f))); try assumption.
+  apply surjective_pairing.
 Qed.
 End Roundtrip.
+
+(* ================= sequences: decoding what the encoder wrote ================= *)
+Section Sequence.
+Variable hd : bytes -> hres.
+Hypothesis Hhd : hd_ok hd.
+
+Lemma parse_size_update_ok t v rest : tab_ok t -> 0 <= v <= dallowed t -> v < 2 ^ 62 ->
+  parse_repr hd t (append_table_size v ++ rest)
+  = ROk (mkDT (fit (ents t) v) (tsum (fit (ents t) v)) v (dallowed t), None) rest.
+Proof.
+  intros Hok Hv Hv2. unfold append_table_size.
+  destruct (varint_enc 5 32 v rest ltac:(lia) ltac:(lia) ltac:(lia) eq_refl) as [b0 [tl [Hb [Hr Hrd]]]].
+  rewrite Hb. rewrite <- app_comm_cons. rewrite <- app_comm_cons in Hrd.
+  change (32 + 2 ^ 5) with 64 in Hr.
+  unfold parse_repr. assert (128 <=? b0 = false) as -> by lia. assert (64 <=? b0 = false) as -> by lia.
+  assert (b0 <? 16 = false) as -> by lia. assert (b0 <? 32 = false) as -> by lia.
+  unfold parse_size_update. rewrite Hrd. assert (v >? dallowed t = false) as -> by lia.
+  rewrite (dt_set_max_ok t v Hok) by lia. reflexivity.
+Qed.
+
+Definition ocons (o : option field) (l : list field) : list field := match o with Some x => x :: l | None => l end.
+Inductive Dec : dyntab -> bytes -> list field -> dyntab -> Prop :=
+| Dec_nil t : Dec t [] [] t
+| Dec_step t r t1 o rest0 fs t' :
+    r <> [] -> (forall rest, parse_repr hd t (r ++ rest) = ROk (t1, o) rest) -> Dec t1 rest0 fs t' ->
+    Dec t (r ++ rest0) (ocons o fs) t'.
+
+Lemma Dec_app t a fa t1 : Dec t a fa t1 -> forall b fb t2, Dec t1 b fb t2 -> Dec t (a ++ b) (fa ++ fb) t2.
+Proof.
+  induction 1 as [t|t r t1 o rest0 fs t' Hr Hp Hd IH]; intros b fb t2 H2; [exact H2|].
+  rewrite <- app_assoc. replace (ocons o fs ++ fb) with (ocons o (fs ++ fb)) by (destruct o; reflexivity).
+  eapply Dec_step; [exact Hr|exact Hp|]. apply IH. exact H2.
+Qed.
+Lemma Dec_one t r t1 o : r <> [] -> (forall rest, parse_repr hd t (r ++ rest) = ROk (t1, o) rest) -> Dec t r (ocons o []) t1.
+Proof. intros Hr Hp. rewrite <- (app_nil_r r). eapply Dec_step; [exact Hr|exact Hp|apply Dec_nil]. Qed.
+
+Lemma Dec_parse_loop t blk fs t' : Dec t blk fs t' -> forall fuel acc, (length blk < fuel)%nat ->
+  parse_loop hd fuel t blk acc = (mkD t' [], rev fs ++ acc, 0).
+Proof.
+  induction 1 as [t|t r t1 o rest0 fs t' Hr Hp Hd IH]; intros fuel acc Hf.
+  - destruct fuel; reflexivity.
+  - destruct r as [|b r']; [congruence|]. destruct fuel as [|f]; [simpl in Hf; lia|].
+    rewrite <- app_comm_cons. cbn [parse_loop]. rewrite app_comm_cons, Hp.
+    rewrite IH by (simpl in Hf; rewrite app_length in Hf; lia).
+    destruct o; cbn [ocons rev]; [rewrite <- app_assoc|]; reflexivity.
+Qed.
+Lemma Dec_nil_inv t fs t' : Dec t [] fs t' -> fs = [] /\ t' = t.
+Proof.
+  intros H. inversion H as [|? r ? ? rest0 ? ? Hr _ _ Heq]; subst; [auto|].
+  destruct r; [congruence|discriminate].
+Qed.
+Lemma Dec_run t blk fs t' : Dec t blk fs t' -> dec_run hd (mkD t []) [blk] [] = (mkD t' [], fs, 0).
+Proof.
+  intros H. cbn [dec_run]. unfold dec_write. destruct blk as [|b blk'].
+  - destruct (Dec_nil_inv _ _ _ H) as [-> ->]. reflexivity.
+  - cbn [dsave app]. rewrite (Dec_parse_loop _ _ _ _ H) by (simpl; lia).
+    rewrite app_nil_r, rev_involutive. reflexivity.
+Qed.
+
+(* simulation relation between encoder state and decoder table (L = negotiated limit) *)
+Definition sim (L : Z) (e : enc) (t : dyntab) : Prop :=
+  tab_ok t /\ tab_ok (edt e) /\ dallowed t = L /\ elimit e = L /\ dmax (edt e) <= L /\ dmax t <= 2 ^ 32
+  /\ tsum (ents t) <= L
+  /\ (epending e = false -> tab_eq (edt e) t /\ eminsize e = uint32_max)
+  /\ (epending e = true -> ents (edt e) = fit (ents t) (Z.min (eminsize e) (dmax (edt e))) /\ 0 <= eminsize e
+        /\ (eminsize e <= dmax (edt e) \/ (eminsize e = uint32_max /\ dmax (edt e) = L))).
+
+Lemma u32_lt : uint32_max < 2 ^ 32 /\ 2 ^ 32 < 2 ^ 62 /\ 0 <= uint32_max.
+Proof. unfold uint32_max. split; [lia|split; [apply Z.pow_lt_mono_r; lia|]]. assert (0 < 2 ^ 32) by (apply Z.pow_pos_nonneg; lia). lia. Qed.
+
+Lemma sim_updates L e t : 0 <= L <= uint32_max -> sim L e t ->
+  exists t1, Dec t (enc_updates e) [] t1 /\ tab_eq (edt e) t1 /\ tab_ok t1 /\ dallowed t1 = L /\ dmax t1 <= 2 ^ 32
+             /\ tsum (ents t1) <= L.
+Proof.
+  intros HL [Hokt [Hoke [Hal [Hlim [HmL [Hbig [HtL [Hnp Hp]]]]]]]].
+  pose proof u32_lt as [Hu1 [Hu2 Hu3]].
+  unfold enc_updates. destruct (epending e) eqn:Ep.
+  - destruct (Hp eq_refl) as [Hents [Hm0 Hdisj]]. clear Hnp Hp.
+    set (m := eminsize e) in *. set (M := dmax (edt e)) in *.
+    assert (0 <= M) as HM0 by (destruct Hoke as [_ [H _]]; exact H).
+    set (tM := fun (t0 : dyntab) v => mkDT (fit (ents t0) v) (tsum (fit (ents t0) v)) v (dallowed t0)).
+    destruct (m <? M) eqn:Emm.
+    + exists (tM (tM t m) M). split; [|split; [|split; [|split; [|split]]]].
+      * change (@nil field) with (ocons None (ocons None [])) at 1.
+        eapply Dec_step; [apply or_first_nonnil| |].
+        -- intros rest. apply parse_size_update_ok; [exact Hokt|lia|lia].
+        -- rewrite <- (app_nil_r (append_table_size M)).
+           eapply Dec_step; [apply or_first_nonnil| |apply Dec_nil].
+           intros rest. apply parse_size_update_ok; [apply tab_ok_set_max; lia|cbn [dallowed]; lia|lia].
+      * unfold tab_eq, tM. cbn [ents dmax]. rewrite fit_fit. split; [exact Hents|reflexivity].
+      * apply (tab_ok_set_max (tM t m) M). lia.
+      * unfold tM. cbn [dallowed]. exact Hal.
+      * unfold tM. cbn [dmax]. lia.
+      * unfold tM. cbn [ents]. pose proof (fit_le (fit (ents t) m) M HM0). lia.
+    + exists (tM t M). split; [|split; [|split; [|split; [|split]]]].
+      * cbn [app]. change (@nil field) with (ocons None []). apply Dec_one; [apply or_first_nonnil|].
+        intros rest. apply parse_size_update_ok; [exact Hokt|lia|lia].
+      * unfold tab_eq, tM. cbn [ents dmax]. rewrite Hents. replace (Z.min m M) with M by lia. split; reflexivity.
+      * apply tab_ok_set_max. lia.
+      * unfold tM. cbn [dallowed]. exact Hal.
+      * unfold tM. cbn [dmax]. lia.
+      * unfold tM. cbn [ents]. pose proof (fit_le (ents t) M HM0). lia.
+  - destruct (Hnp eq_refl) as [Heq _]. exists t. split; [apply Dec_nil|].
+    split; [exact Heq|split; [exact Hokt|split; [exact Hal|split; [exact Hbig|exact HtL]]]].
+Qed.
+
+Lemma sim_write L e t f e' b : 0 <= L <= uint32_max -> sim L e t -> wf_f f ->
+  enc_write e f = Some (e', b) -> exists t', Dec t b [f] t' /\ sim L e' t'.
+Proof.
+  intros HL Hsim Hwf Hw. destruct (sim_updates L e t HL Hsim) as [t1 [Hd1 [Heq1 [Hok1 [Hal1 [Hbig1 HtL1]]]]]].
+  destruct Hsim as [Hokt [Hoke [Hal [Hlim [HmL [_ [_ [Hnp _]]]]]]]].
+  unfold enc_write in Hw. destruct (enc_field (enc_clear e) f) as [[e2 body]|] eqn:Ef; [|discriminate].
+  inversion Hw; subst e' b.
+  assert (edt (enc_clear e) = edt e /\ elimit (enc_clear e) = elimit e /\ epending (enc_clear e) = false
+          /\ eminsize (enc_clear e) = uint32_max \/ (epending e = false /\ enc_clear e = e)) as Hc.
+  { unfold enc_clear. destruct (epending e) eqn:Ep; [left; cbn; auto|right; auto]. }
+  assert (edt (enc_clear e) = edt e /\ elimit (enc_clear e) = elimit e /\ epending (enc_clear e) = false) as [Hc1 [Hc2 Hc3]].
+  { destruct Hc as [[H1 [H2 [H3 _]]]|[H1 H2]]; [auto|rewrite H2; auto]. }
+  destruct (field_roundtrip hd Hhd (enc_clear e) f e2 body t1 Hwf Hok1 ltac:(rewrite Hc1; exact Hoke)
+              ltac:(rewrite Hc1; exact Heq1) Hbig1 Ef) as [Hnn [t' [Hp [Hteq [Hokt' [Hoke' [Hal' [Hmx' [Hmin' [Hlim' Hpen']]]]]]]]]].
+  exists t'. split.
+  - change [f] with ([] ++ ocons (Some f) []). eapply Dec_app; [exact Hd1|]. apply Dec_one; assumption.
+  - unfold sim. destruct Hteq as [Hte Htm]. destruct Heq1 as [_ Hm1].
+    split; [exact Hokt'|split; [exact Hoke'|split; [congruence|split; [congruence|]]]].
+    split; [rewrite Htm, Hmx', <- Hm1; exact HmL|].
+    split; [rewrite Hmx'; exact Hbig1|].
+    split; [destruct Hokt' as [_ [_ Hle]]; rewrite Hmx', <- Hm1 in Hle; lia|].
+    split.
+    + intros _. split; [split; assumption|].
+      rewrite Hmin'. destruct Hc as [[_ [_ [_ H4]]]|[H1 H2]]; [exact H4|].
+      rewrite H2. apply (Hnp H1).
+    + intros Hpe. rewrite Hpen', Hc3 in Hpe. discriminate Hpe.
+Qed.
+
+Lemma sim_set_max L e t v : 0 <= L <= uint32_max -> sim L e t -> 0 <= v ->
+  exists e', enc_set_max e v = Some e' /\ sim L e' t.
+Proof.
+  intros HL [Hokt [Hoke [Hal [Hlim [HmL [Hbig [HtL [Hnp Hp]]]]]]]] Hv.
+  pose proof u32_lt as [Hu1 [Hu2 Hu3]].
+  unfold enc_set_max. rewrite Hlim.
+  set (v' := if v >? L then L else v). assert (0 <= v' <= L) as Hv' by (unfold v'; destruct (v >? L) eqn:E; lia).
+  rewrite (dt_set_max_ok (edt e) v' Hoke) by lia.
+  eexists. split; [reflexivity|].
+  unfold sim. cbn [edt eminsize elimit epending ents dmax dallowed].
+  split; [exact Hokt|split; [apply tab_ok_set_max; lia|split; [exact Hal|split; [reflexivity|split; [lia|split; [exact Hbig|split; [exact HtL|]]]]]]].
+  split; [discriminate|]. intros _.
+  destruct (epending e) eqn:Ep.
+  - destruct (Hp eq_refl) as [Hents [Hm0 Hdisj]]. rewrite Hents, fit_fit.
+    destruct (v' <? eminsize e) eqn:E.
+    + split; [f_equal; lia|split; [lia|left; lia]].
+    + split; [f_equal; lia|split; [lia|left; lia]].
+  - destruct (Hnp eq_refl) as [[Hents _] Hmin]. rewrite Hents, Hmin.
+    destruct (v' <? uint32_max) eqn:E.
+    + split; [f_equal; lia|split; [lia|left; lia]].
+    + split; [f_equal; lia|split; [lia|left; lia]].
+Qed.
+End Sequence.
